@@ -20,6 +20,7 @@ along with evo.  If not, see <http://www.gnu.org/licenses/>.
 
 import json
 import logging
+import os
 import typing
 from pathlib import Path
 
@@ -83,9 +84,22 @@ def merge_dicts(first: dict, second: dict, soft: bool = False) -> dict:
     return first
 
 
-def write_to_json_file(json_path: Path, dictionary: dict) -> None:
-    with open(json_path, 'w') as json_file:
-        json_file.write(json.dumps(dictionary, indent=4, sort_keys=True))
+def write_atomically(path: typing.Union[str, Path], text: str) -> None:
+    """
+    Writes the text to a temporary file of this process in the same folder
+    and then renames it, so that the file at the given path is never seen
+    empty or incomplete by other processes or after an interruption.
+    """
+    tmp_path = "{}.{}.tmp".format(path, os.getpid())
+    with open(tmp_path, 'w') as tmp_file:
+        tmp_file.write(text)
+    os.replace(tmp_path, path)
+
+
+def write_to_json_file(json_path: typing.Union[str, Path],
+                       dictionary: dict) -> None:
+    write_atomically(json_path,
+                     json.dumps(dictionary, indent=4, sort_keys=True))
 
 
 def reset(destination: Path = DEFAULT_PATH,
@@ -107,11 +121,11 @@ def initialize_if_needed() -> None:
     Initialize evo user folder after first installation
     (or if it was deleted).
     """
-    if not USER_ASSETS_PATH.exists():
-        USER_ASSETS_PATH.mkdir()
+    # Other evo processes might initialize the folder at the same time.
+    USER_ASSETS_PATH.mkdir(exist_ok=True)
 
     if not USER_ASSETS_VERSION_PATH.exists():
-        open(USER_ASSETS_VERSION_PATH, 'w').write(__version__)
+        write_atomically(USER_ASSETS_VERSION_PATH, __version__)
 
     if not DEFAULT_PATH.exists():
         try:
@@ -136,7 +150,7 @@ def update_if_outdated() -> None:
     updated_settings = merge_dicts(old_settings, DEFAULT_SETTINGS_DICT,
                                    soft=True)
     write_to_json_file(DEFAULT_PATH, updated_settings)
-    open(USER_ASSETS_VERSION_PATH, 'w').write(__version__)
+    write_atomically(USER_ASSETS_VERSION_PATH, __version__)
     print("{}Updated outdated {}{}".format(Fore.LIGHTYELLOW_EX, DEFAULT_PATH,
                                            Fore.RESET))
 
